@@ -830,9 +830,9 @@ def st_iter_next(ex, callee, args, st):
     if it.rev:
         k, new = it.hi - 1, SeqIter(it.seq, it.lo, it.hi - 1, True)
     else:
-        k, new = it.lo, SeqIter(it.seq, it.lo + 1, it.hi, False)
+        k, new = it.lo, SeqIter(it.seq, it.lo + 1, it.hi, False, it.enum)
     ex._store(ref.frame, ref.place, new, st2)
-    return _ret(Adt("Option", "Some", [seq_elem(ex, it.seq, k)]), st2)
+    return _ret(Adt("Option", "Some", [iter_elem(ex, it, k) if it.enum else seq_elem(ex, it.seq, k)]), st2)
 
 
 def st_iter_any(ex, callee, args, st):
@@ -952,6 +952,7 @@ STATE_INTRINSICS = {
     r"^<Filter<.*> as (std::iter::)?Iterator>::cloned::<.*>$": st_filter_cloned,
     r"^<(Cloned<)?Filter<.*>>? as (std::iter::)?Iterator>::collect::<(std::vec::)?Vec<.*>>$": st_collect_filter,
     r"^<(std::iter::)?Enumerate<.*> as (std::iter::)?Iterator>::map::<.*>$": st_iter_map,
+    r"^<(std::iter::)?Enumerate<(std::slice::)?Iter<.*>> as (std::iter::)?Iterator>::next$": st_iter_next,
     r"^(std::vec::)?Vec::<.*>::new$": st_vec_new,
     r"^(std::vec::)?Vec::<.*>::push$": st_vec_push,
     r"^<(std::vec::)?Vec<.*> as (std::ops::)?Index<usize>>::index$": st_vec_index,
